@@ -48,11 +48,11 @@ type Model struct {
 func New(files map[string]string, root string) (*Model, error) {
 	m := &Model{Files: map[string]S{}, Root: root, Dev: map[string]bool{}, Fired: map[string]bool{}}
 	for p, t := range files {
-		if !strings.HasSuffix(p, ".json") {
-			continue
-		}
 		v, err := jsonv.Parse(t)
 		if err != nil {
+			if !strings.HasSuffix(p, ".json") {
+				continue // YAML files are only modelled when written in flow (JSON) style
+			}
 			return nil, fmt.Errorf("%s: %w", p, err)
 		}
 		if o, ok := v.(map[string]any); ok {
@@ -115,6 +115,8 @@ func (m *Model) Resolve(ref, file string) (any, string, error) {
 		if _, ok := m.Files[target]; !ok {
 			if _, ok2 := m.Files[target+".json"]; ok2 {
 				target += ".json"
+			} else if _, ok3 := m.Files[target+".yaml"]; ok3 {
+				target += ".yaml"
 			}
 		}
 	}
